@@ -212,16 +212,20 @@ def emit(chk, p):
     return vecs
 
 
-def run_schedules(chk, vecs, ndocs_model):
+def run_schedules(chk, vecs, ndocs_model, batch=3000):
+    """The schedules are replayed in batches, one process each: the in-process starts that are killed (a panic at the hook,
+    unwound) leave tantivy's writer threads and arenas behind, which adds up over tens of thousands of schedules."""
     w = vlib.workdir("c15-run")
     vf, of, tf = (os.path.join(w, n) for n in ("vectors.ndjson", "out.ndjson", "trace.ndjson"))
-    vlib.write_ndjson(vf, vecs)
-    p = vlib.conform(["c15-replay", "--vectors", vf, "--out", of, "--trace", tf, "--work", os.path.join(w, "dirs"),
-                      "--repo", vlib.REPO, "--docs-model", ndocs_model, "--jobs", 14], timeout=7200)
-    info = json.loads(p.stdout.strip().splitlines()[-1])
-    results = vlib.read_ndjson(of)
-    events = compress(vlib.read_ndjson(tf))
-    return info, results, events
+    results, events, info = [], [], None
+    for off in range(0, len(vecs), batch):
+        vlib.write_ndjson(vf, vecs[off:off + batch])
+        p = vlib.conform(["c15-replay", "--vectors", vf, "--out", of, "--trace", tf, "--work", os.path.join(w, "dirs"),
+                          "--repo", vlib.REPO, "--docs-model", ndocs_model, "--jobs", 14, "--offset", off], timeout=7200)
+        info = json.loads(p.stdout.strip().splitlines()[-1])
+        results += vlib.read_ndjson(of)
+        events += vlib.read_ndjson(tf)
+    return info, results, compress(events)
 
 
 def judge(chk, results):
